@@ -97,6 +97,7 @@ func VerifH_C10_ts() {
 	vt := &mpegts.Track{Codec: &mpegts.CodecH264{}}
 	at := &mpegts.Track{Codec: &mpegts.CodecMPEG4Audio{Config: mpeg4audio.Config{Type: 2, SampleRate: 44100, ChannelCount: 2}}}
 	withAudio := verifBool("withaudio")
+	unexpected := verifParam("UNEXPECTED", 0) == 1
 	verifTSClientTracks = []*mpegts.Track{vt}
 	if withAudio {
 		verifTSClientTracks = append(verifTSClientTracks, at)
@@ -135,6 +136,13 @@ func VerifH_C10_ts() {
 			}
 		}
 		audioFirst := s > 0 && na > 0 && verifBool("audiofirst") // file order inside later segments is free
+		if unexpected && s == 0 && na > 0 {
+			// C13: well-formed but unexpected first segment: audio before the first video unit, or no video data at all
+			audioFirst = verifBool("audiofirst0")
+			if verifBool("novideo0") {
+				nv = 0
+			}
+		}
 		if audioFirst && na < 2 {
 			na = 2 // a real demuxer hands a PES over when the next one of the same stream starts: two audio units put the first one before the video
 		}
@@ -198,6 +206,12 @@ func VerifH_C10_ts() {
 	ended := sd.ended
 	rp.close()
 	verifReach("ran")
+	if unexpected {
+		// no panic, no deadlock (engine checks), Close honoured; the stream ends (units skipped) or Wait yields an error
+		verifAssert("C13", "skips-the-piece-or-ends-with-an-error", gotErr || ended)
+		verifAssert("C13", "no-routine-left-after-close", verifLiveThreads() == 0)
+		return
+	}
 	verifAssert("C10", "no-error-on-well-formed-stream", !gotErr)
 	verifAssert("C10", "end-of-stream-signalled", ended)
 	verifAssert("C10", "reports-exactly-the-stream-tracks", len(sd.tracks) == len(verifTSClientTracks))
